@@ -35,19 +35,21 @@ def wrap (C : Crypto) (key p : Bytes) : Except Err Bytes := do
   let padLen := (16 - (2 + 1 + p.length + crc.length) % 16) % 16 + 1
   C.encrypt key none ([0x42] ++ lb ++ zeros padLen ++ p ++ crc)
 
-/-- `AesEncryptorMixin.decrypt` (reader with strict reads) -/
-def unwrap (C : Crypto) (key ct : Bytes) : Except Err Bytes := do
-  let frame ← C.decrypt key none ct
-  let (m, r1) ← take 1 frame
-  if m != [0x42] then throw Err.formatBec2
-  let (lb, _) ← take 1 r1
-  let ppl := fromBE lb
-  if ct.length < ppl then throw Err.valueError          -- negative seek
-  let rest := frame.drop (ct.length - ppl)
-  let (payload, r2) ← if ppl < 2 then pure (rest, []) else take (ppl - 2) rest
-  let (crcb, _) ← take 2 r2
-  if crcOf payload != fromBE crcb then throw Err.formatBec2
-  pure payload
+/-- the frame parser of `AesEncryptorMixin.decrypt` (reader with strict reads); `ctLen = len(ciphertext)` -/
+def parseFrame (ctLen : Nat) (frame : Bytes) : Except Err Bytes :=
+  take 1 frame >>= fun mr =>
+  if mr.1 != [0x42] then .error .formatBec2 else
+  take 1 mr.2 >>= fun lr =>
+  let ppl := fromBE lr.1
+  if ctLen < ppl then .error .valueError else          -- negative seek
+  let rest := frame.drop (ctLen - ppl)
+  (if ppl < 2 then .ok (rest, []) else take (ppl - 2) rest) >>= fun pr =>
+  take 2 pr.2 >>= fun cr =>
+  if crcOf pr.1 != fromBE cr.1 then .error .formatBec2 else .ok pr.1
+
+/-- `AesEncryptorMixin.decrypt` -/
+def unwrap (C : Crypto) (key ct : Bytes) : Except Err Bytes :=
+  C.decrypt key none ct >>= fun frame => parseFrame ct.length frame
 
 /-- Python slice bounds `[a : b]` on a sequence of length `n` -/
 def sliceBounds (n : Nat) (a b : Int) : Nat × Nat :=
